@@ -1,6 +1,7 @@
 import Dashu.Model.Int.Bits
 import Dashu.Proofs.Int.Repr
 import Mathlib.Data.Int.Bitwise
+import Mathlib.Data.Nat.Bitwise
 /-
   Refinement of the bit-operation layer (`integer/src/bits.rs`, `shift_ops.rs`, `shift.rs`) to the
   two's-complement specification, for every word size `W ≥ 1` and every operand length.
@@ -1164,5 +1165,548 @@ theorem ibigShr_asis (W : Nat) (hW : 1 ≤ W) (a : SRepr) (n : Nat) (byRef : Boo
             rw [hnd] at hdef; exact absurd hdef (by simp)
         · rw [Nat.min_eq_left h]
       simp only [key]
+
+
+-- ================================================================== trailing zeros / ones
+
+theorem IsTz.zero_of_odd {n : Nat} (h : n % 2 = 1) : IsTz n 0 :=
+  ⟨by simp [Nat.mod_one], by simpa using h⟩
+
+theorem IsTz.double {j k : Nat} (h : IsTz j k) : IsTz (2 * j) (k + 1) := by
+  obtain ⟨h1, h2⟩ := h
+  refine ⟨?_, ?_⟩
+  · rw [Nat.pow_succ, Nat.mul_comm (2 ^ k) 2, Nat.mul_mod_mul_left, h1]
+  · rw [Nat.pow_succ, Nat.mul_comm (2 ^ k) 2, Nat.mul_div_mul_left _ _ (by omega : 0 < 2)]; exact h2
+
+theorem IsTz.ne_zero {n k : Nat} (h : IsTz n k) : n ≠ 0 := by
+  intro h0; subst h0; simp [IsTz] at h
+
+theorem IsTz.pow_le {n k : Nat} (h : IsTz n k) : 2 ^ k ≤ n := by
+  obtain ⟨h1, h2⟩ := h
+  have hdm := Nat.div_add_mod n (2 ^ k)
+  rw [h1, Nat.add_zero] at hdm
+  generalize n / 2 ^ k = q at *
+  calc 2 ^ k = 2 ^ k * 1 := by simp
+    _ ≤ 2 ^ k * q := Nat.mul_le_mul_left _ (by omega)
+    _ = n := hdm
+
+/-- the number of trailing zeros is unique -/
+theorem IsTz.unique {n k k' : Nat} (h : IsTz n k) (h' : IsTz n k') : k = k' := by
+  have key : ∀ {a b : Nat}, IsTz n a → IsTz n b → a < b → False := by
+    intro a b ha hb hab
+    obtain ⟨d, rfl⟩ : ∃ d, b = a + d + 1 := ⟨b - a - 1, by omega⟩
+    obtain ⟨j, hj⟩ : 2 ^ (a + d + 1) ∣ n := Nat.dvd_of_mod_eq_zero hb.1
+    have : n / 2 ^ a = 2 * (2 ^ d * j) := by
+      rw [hj, show 2 ^ (a + d + 1) * j = 2 ^ a * (2 * (2 ^ d * j)) by
+        rw [Nat.pow_succ, Nat.pow_add]; ring]
+      exact Nat.mul_div_cancel_left _ (Nat.two_pow_pos a)
+    have h2 := ha.2
+    rw [this] at h2; omega
+  rcases Nat.lt_trichotomy k k' with hlt | heq | hgt
+  · exact (key h h' hlt).elim
+  · exact heq
+  · exact (key h' h hgt).elim
+
+theorem tzAux_spec (f n : Nat) (hn : n ≠ 0) (hlt : n < 2 ^ f) : IsTz n (tzAux f n) := by
+  induction f generalizing n with
+  | zero => simp at hlt; omega
+  | succ f ih =>
+    simp only [tzAux]
+    split
+    · rename_i h; exact IsTz.zero_of_odd h
+    · rename_i h
+      have he : n = 2 * (n / 2) := by omega
+      have := ih (n / 2) (by omega) (by rw [Nat.pow_succ] at hlt; omega)
+      rw [he]; rw [← he]
+      have h2 := this.double
+      rwa [← he] at h2
+
+theorem tzWord_spec (bits n : Nat) (hn : n ≠ 0) (hlt : n < 2 ^ bits) : IsTz n (tzWord bits n) := by
+  simp only [tzWord, hn, if_false]; exact tzAux_spec bits n hn hlt
+
+/-- adding a multiple of a higher power of two does not change the trailing zeros -/
+theorem IsTz.add_high {w k W : Nat} (h : IsTz w k) (hw : w < 2 ^ W) (v : Nat) :
+    IsTz (w + 2 ^ W * v) k := by
+  have hkW : k < W := by
+    have := h.pow_le
+    exact (Nat.pow_lt_pow_iff_right (by omega : 1 < 2)).mp (Nat.lt_of_le_of_lt this hw)
+  have hs : 2 ^ W = 2 ^ k * (2 * 2 ^ (W - k - 1)) := by
+    rw [← Nat.pow_succ', ← Nat.pow_add]; congr 1; omega
+  obtain ⟨h1, h2⟩ := h
+  refine ⟨?_, ?_⟩
+  · rw [hs, Nat.mul_assoc, Nat.add_mul_mod_self_left]; exact h1
+  · rw [hs, Nat.mul_assoc, Nat.add_mul_div_left _ _ (Nat.two_pow_pos k), Nat.mul_assoc,
+      Nat.add_mul_mod_self_left]
+    exact h2
+
+theorem IsTz.shift {v k : Nat} (h : IsTz v k) (W : Nat) : IsTz (2 ^ W * v) (k + W) := by
+  obtain ⟨h1, h2⟩ := h
+  refine ⟨?_, ?_⟩
+  · rw [Nat.add_comm, Nat.pow_add, Nat.mul_mod_mul_left, h1, Nat.mul_zero]
+  · rw [Nat.add_comm, Nat.pow_add, Nat.mul_div_mul_left _ _ (Nat.two_pow_pos W)]; exact h2
+
+theorem tzLarge_spec (W : Nat) (ws : List Nat) (hw : IsWords W ws) (hnz : val W ws ≠ 0) :
+    ∃ k, tzLarge W ws = .ok k ∧ IsTz (val W ws) k := by
+  induction ws with
+  | nil => simp at hnz
+  | cons w ws ih =>
+    simp only [tzLarge]
+    split
+    · rename_i h
+      exact ⟨_, rfl, (tzWord_spec W w h hw.head).add_high hw.head _⟩
+    · rename_i h
+      have hw0 : w = 0 := by omega
+      subst hw0
+      simp only [val_cons, Nat.zero_add] at hnz ⊢
+      have hv : val W ws ≠ 0 := by intro h0; rw [h0] at hnz; simp at hnz
+      obtain ⟨k, hk, ht⟩ := ih hw.tail hv
+      exact ⟨k + W, by rw [hk]; rfl, ht.shift W⟩
+
+theorem toWord_spec (f n : Nat) (hlt : n < 2 ^ f) : IsTz (n + 1) (toWord f n) := by
+  induction f generalizing n with
+  | zero =>
+    have : n = 0 := by simpa using hlt
+    subst this; simp [toWord, IsTz]
+  | succ f ih =>
+    simp only [toWord]
+    split
+    · rename_i h; exact IsTz.zero_of_odd (by omega)
+    · rename_i h
+      have := (ih (n / 2) (by rw [Nat.pow_succ] at hlt; omega)).double
+      have he : 2 * (n / 2 + 1) = n + 1 := by omega
+      rwa [he] at this
+
+theorem toScanFixed_spec (W : Nat) (ws : List Nat) (hw : IsWords W ws) :
+    IsTz (val W ws + 1) (toScanFixed W ws) := by
+  induction ws with
+  | nil => simp [toScanFixed, IsTz]
+  | cons w ws ih =>
+    have hw0 := hw.head
+    simp only [toScanFixed, val_cons]
+    split
+    · rename_i h
+      have h1 : w + 1 < 2 ^ W := by omega
+      have := (toWord_spec W w hw0).add_high h1 (val W ws)
+      rwa [show w + 1 + 2 ^ W * val W ws = w + 2 ^ W * val W ws + 1 by omega] at this
+    · rename_i h
+      have hmax : w = 2 ^ W - 1 := by omega
+      have hp := Nat.two_pow_pos W
+      have := (ih hw.tail).shift W
+      rwa [show 2 ^ W * (val W ws + 1) = w + 2 ^ W * val W ws + 1 by rw [hmax, Nat.mul_add]; omega] at this
+
+/-- where not every scanned word is `MAX`, the panicking scan agrees with the total one -/
+theorem toScan_eq_fixed (W : Nat) (ws : List Nat) (h : ws.all (· == 2 ^ W - 1) = false) :
+    toScan W ws = .ok (toScanFixed W ws) := by
+  induction ws with
+  | nil => simp at h
+  | cons w ws ih =>
+    simp only [toScan, toScanFixed]
+    split
+    · rfl
+    · rename_i hw
+      have hmax : w = 2 ^ W - 1 := by omega
+      have : ws.all (· == 2 ^ W - 1) = false := by
+        simp only [List.all_cons, hmax, beq_self_eq_true, Bool.true_and] at h; exact h
+      rw [ih this]; rfl
+
+/-- `trailing_ones` with the repaired scan: the count `k` satisfies `2^k ∣ x+1`, `(x+1)/2^k` odd -/
+theorem TRepr.trailingOnes_fixed (W : Nat) (m : TRepr) (hm : m.Canon W) :
+    ∃ k, m.trailingOnes W true = .ok k ∧ IsTz (m.value W + 1) k := by
+  cases m with
+  | small d => exact ⟨_, rfl, toWord_spec (2 * W) d hm⟩
+  | large ws => exact ⟨_, rfl, toScanFixed_spec W ws hm.large_words⟩
+
+/-- the code AS IS agrees with the repaired scan outside the defect class `toDefect` -/
+theorem TRepr.trailingOnes_asis (W : Nat) (m : TRepr) (hm : m.Canon W) (hnd : toDefect W m = false) :
+    m.trailingOnes W false = m.trailingOnes W true := by
+  cases m with
+  | small d => rfl
+  | large ws =>
+    have hl := hm.large_len
+    obtain ⟨w0, w1, t, rfl⟩ := exists_cons_cons (show 2 ≤ ws.length by omega)
+    simp only [toDefect, List.getD_cons_zero, List.drop_succ_cons, List.drop_zero, Bool.or_eq_false_iff,
+      bne_eq_false_iff_eq] at hnd
+    obtain ⟨h0, h1⟩ := hnd
+    simp only [TRepr.trailingOnes, toLarge, Bool.false_eq_true, if_false, if_true, List.drop_succ_cons,
+      List.drop_zero]
+    rw [toScan_eq_fixed W _ h1]
+    simp only [toScanFixed, h0, ne_eq, not_true_eq_false, if_false]
+    rfl
+
+-- ================================================================== Repr::ones
+
+theorem val_replicate_max (W n : Nat) : val W (List.replicate n (2 ^ W - 1)) + 1 = 2 ^ (W * n) := by
+  induction n with
+  | zero => simp
+  | succ n ih =>
+    have hp := Nat.two_pow_pos W
+    simp only [List.replicate_succ, val_cons]
+    rw [Nat.mul_succ, Nat.pow_add, ← ih]
+    generalize val W (List.replicate n (2 ^ W - 1)) = V
+    generalize 2 ^ W = B at *
+    rw [Nat.add_mul, Nat.one_mul, Nat.mul_comm V B]; omega
+
+theorem reprOnes_value (W : Nat) (fx : Bool) (n : Nat) :
+    (reprOnes W fx n).value W = 2 ^ n - 1 := by
+  unfold reprOnes
+  split
+  · rfl
+  · split
+    · rfl
+    · have hmax := val_replicate_max W (n / W)
+      have hp := Nat.two_pow_pos (W * (n / W))
+      simp only [TRepr.value_large]
+      split
+      · rw [val_append, List.length_replicate]
+        simp only [val_cons, val_nil, Nat.mul_zero, Nat.add_zero, onesN]
+        have h2 := Nat.two_pow_pos (n % W)
+        have : 2 ^ n = 2 ^ (W * (n / W)) * 2 ^ (n % W) := (pow_div_mod W n).symm
+        rw [this, Nat.mul_sub, Nat.mul_one]
+        generalize 2 ^ (W * (n / W)) = A at *
+        generalize 2 ^ (n % W) = B at *
+        have : A ≤ A * B := Nat.le_mul_of_pos_right A h2
+        omega
+      · rename_i h
+        have h0 : n % W = 0 := by omega
+        have : 2 ^ n = 2 ^ (W * (n / W)) := by rw [← pow_div_mod W n, h0]; simp
+        simp only [List.append_nil]
+        omega
+
+/-- the repaired `Repr::ones` is canonical for every `n` -/
+theorem reprOnes_canon_fixed (W : Nat) (hW : 1 ≤ W) (n : Nat) : (reprOnes W true n).Canon W := by
+  have hpn := Nat.two_pow_pos n
+  unfold reprOnes
+  split
+  · rename_i h
+    show onesN n < 2 ^ (2 * W)
+    have : 2 ^ n ≤ 2 ^ (2 * W) := Nat.pow_le_pow_right (by omega) (by omega)
+    unfold onesN; omega
+  · split
+    · rename_i h
+      show onesN n < 2 ^ (2 * W)
+      have : 2 ^ n ≤ 2 ^ (2 * W) := Nat.pow_le_pow_right (by omega) (by omega)
+      unfold onesN; omega
+    · rename_i h1 h2
+      have hn : 2 * W < n := by
+        rcases Nat.lt_or_ge (2 * W) n with h | h
+        · exact h
+        · exfalso; apply h2
+          rcases Nat.lt_or_ge n (2 * W) with h' | h'
+          · exact Or.inl h'
+          · exact Or.inr ⟨rfl, by omega⟩
+      have hq : 2 ≤ n / W := by
+        rw [Nat.le_div_iff_mul_le (by omega)]; omega
+      have hmaxw : 2 ^ W - 1 < 2 ^ W := by have := Nat.two_pow_pos W; omega
+      refine ⟨?_, ?_, ?_⟩
+      · simp only [List.length_append, List.length_replicate]
+        split
+        · simp; omega
+        · rename_i h
+          have h0 : n % W = 0 := by omega
+          have hn' : n = W * (n / W) := by have := Nat.div_add_mod n W; omega
+          have hlt : W * 2 < W * (n / W) := by omega
+          have := Nat.lt_of_mul_lt_mul_left hlt
+          simp; omega
+      · apply IsWords.append (isWords_replicate W _ _ hmaxw)
+        split
+        · apply isWords_singleton
+          unfold onesN
+          have : 2 ^ (n % W) ≤ 2 ^ W :=
+            Nat.pow_le_pow_right (by omega) (Nat.le_of_lt (Nat.mod_lt _ (by omega)))
+          have := Nat.two_pow_pos (n % W); omega
+        · exact IsWords.nil W
+      · split
+        · rename_i h
+          rw [List.getLast?_append]; simp [onesN]
+          have : 2 ≤ 2 ^ (n % W) := by
+            calc 2 = 2 ^ 1 := rfl
+              _ ≤ 2 ^ (n % W) := Nat.pow_le_pow_right (by omega) (by omega)
+          omega
+        · simp only [List.append_nil]
+          rw [show n / W = (n / W - 1) + 1 by omega, List.replicate_succ']
+          rw [List.getLast?_append]; simp
+          have : 2 ≤ 2 ^ W := by
+            calc 2 = 2 ^ 1 := rfl
+              _ ≤ 2 ^ W := Nat.pow_le_pow_right (by omega) hW
+          omega
+
+
+-- ================================================================== bit tests
+
+theorem testBit_val (W : Nat) (hW : 1 ≤ W) (ws : List Nat) (n : Nat) (hw : IsWords W ws) :
+    (val W ws).testBit n = (decide (n / W < ws.length) && (ws.getD (n / W) 0).testBit (n % W)) := by
+  induction ws generalizing n with
+  | nil => simp
+  | cons w ws ih =>
+    rw [val_cons, testBit_cons W w _ n hw.head]
+    by_cases h : n < W
+    · have h0 : n / W = 0 := Nat.div_eq_of_lt h
+      have h1 : n % W = n := Nat.mod_eq_of_lt h
+      simp [h, h0, h1]
+    · have hge : W ≤ n := Nat.le_of_not_lt h
+      have hd : n / W = (n - W) / W + 1 := by
+        rw [Nat.div_eq n W]; simp [hge]; omega
+      have hm : n % W = (n - W) % W := Nat.mod_eq_sub_mod hge
+      simp [h, ih (n - W) hw.tail, hd, hm]
+
+/-- `TypedReprRef::bit` is the bit of the value -/
+theorem TRepr.bit_spec (W : Nat) (hW : 1 ≤ W) (m : TRepr) (n : Nat) (hm : m.Canon W) :
+    m.bit W n = (m.value W).testBit n := by
+  cases m with
+  | small d =>
+    simp only [TRepr.bit, TRepr.value_small]
+    by_cases h : n < 2 * W
+    · simp [h]
+    · simp [h, testBit_false_of_lt (show d < 2 ^ (2 * W) from hm) (Nat.le_of_not_lt h)]
+  | large ws =>
+    simp only [TRepr.bit, TRepr.value_large]
+    exact (testBit_val W hW ws n hm.large_words).symm
+
+/-- bits of `v - 1` around the lowest set bit of `v` -/
+theorem testBit_pred (v z n : Nat) (h : IsTz v z) :
+    (v - 1).testBit n = if n < z then true else if n = z then false else v.testBit n := by
+  obtain ⟨h1, h2⟩ := h
+  have hdm := Nat.div_add_mod v (2 ^ z)
+  rw [h1, Nat.add_zero] at hdm
+  generalize hq : v / 2 ^ z = q at *
+  have hp := Nat.two_pow_pos z
+  obtain ⟨j, rfl⟩ : ∃ j, q = 2 * j + 1 := ⟨q / 2, by omega⟩
+  have hv1 : v - 1 = 2 ^ z * (2 * j) + (2 ^ z - 1) := by
+    rw [← hdm, Nat.mul_add, Nat.mul_one]; omega
+  rw [hv1, Nat.testBit_two_pow_mul_add _ (by omega : 2 ^ z - 1 < 2 ^ z), ← hdm]
+  by_cases hlt : n < z
+  · simp [hlt, Nat.testBit_two_pow_sub_one]
+  · simp only [hlt, if_false]
+    by_cases heq : n = z
+    · subst heq; simp [Nat.testBit_zero]
+    · obtain ⟨i, hi⟩ : ∃ i, n - z = i + 1 := ⟨n - z - 1, by omega⟩
+      have hge : n ≥ z := by omega
+      simp only [heq, if_false, Nat.testBit_two_pow_mul, hge, decide_true, Bool.true_and, hi,
+        Nat.testBit_succ]
+      congr 1; omega
+
+theorem TRepr.trailingZeros_spec (W : Nat) (m : TRepr) (hm : m.Canon W) :
+    (m.value W = 0 → m.trailingZeros W = .ok none) ∧
+    (m.value W ≠ 0 → ∃ k, m.trailingZeros W = .ok (some k) ∧ IsTz (m.value W) k) := by
+  cases m with
+  | small d =>
+    simp only [TRepr.trailingZeros, TRepr.value_small]
+    refine ⟨fun h => by simp [h], fun h => ⟨_, by simp [h], tzWord_spec (2 * W) d h hm⟩⟩
+  | large ws =>
+    have hpos : val W ws ≠ 0 := by
+      have := hm.large_ge; have := Nat.two_pow_pos (2 * W); omega
+    simp only [TRepr.trailingZeros, TRepr.value_large]
+    refine ⟨fun h => absurd h hpos, fun _ => ?_⟩
+    obtain ⟨k, hk, ht⟩ := tzLarge_spec W ws hm.large_words hpos
+    exact ⟨k, by rw [hk]; rfl, ht⟩
+
+/-- `BitTest::bit for IBig`: the two's-complement bit, for every sign -/
+theorem ibigBit_spec (W : Nat) (hW : 1 ≤ W) (a : SRepr) (n : Nat) (ha : SCanon W a) :
+    ibigBit W a n = .ok (specBit (a.value W) n) := by
+  obtain ⟨an, am⟩ := a
+  obtain ⟨hc, hz⟩ := ha
+  cases an with
+  | false =>
+    simp only [ibigBit, Bool.false_eq_true, if_false, SRepr.value_mk_false, specBit_natCast,
+      TRepr.bit_spec W hW am n hc]
+  | true =>
+    have hz' : am.value W ≠ 0 := hz rfl
+    obtain ⟨z, hk, ht⟩ := (TRepr.trailingZeros_spec W am hc).2 hz'
+    have hneg : -((am.value W : Nat) : Int) = Int.negSucc (am.value W - 1) := by omega
+    simp only [ibigBit, if_true, hk, SRepr.value_mk_true, hneg, specBit_negSucc,
+      testBit_pred _ z n ht, TRepr.bit_spec W hW am n hc]
+    by_cases h1 : n = z
+    · subst h1; simp
+    · by_cases h2 : n > z
+      · have : ¬ n < z := by omega
+        simp [h1, h2, this]
+      · have : n < z := by omega
+        simp [h1, h2, this]
+
+-- ================================================================== clear_high_bits / split_bits
+
+/-- value modulo `2^n` in terms of the word at index `n / W` -/
+theorem val_mod_two_pow (W : Nat) (hW : 1 ≤ W) (ws : List Nat) (n : Nat) (hw : IsWords W ws)
+    (hk : n / W < ws.length) :
+    val W ws % 2 ^ n
+      = val W (ws.take (n / W)) + 2 ^ (W * (n / W)) * (ws.getD (n / W) 0 % 2 ^ (n % W)) := by
+  have hs : n % W < W := Nat.mod_lt _ (by omega)
+  have hsplit := val_take_add_drop W ws (n / W)
+  have hl : (ws.take (n / W)).length = n / W := by
+    simp [List.length_take, Nat.min_eq_left (Nat.le_of_lt hk)]
+  have hlt := val_lt W _ (hw.take (n / W))
+  rw [hl] at hsplit hlt
+  have hdrop : ws.drop (n / W) = ws.getD (n / W) 0 :: ws.drop (n / W + 1) :=
+    (set_take_drop ws (n / W) 0 hk).2.2
+  rw [hdrop, val_cons] at hsplit
+  conv => lhs; rw [← pow_div_mod W n]
+  rw [Nat.mod_mul, hsplit, Nat.add_mul_mod_self_left, Nat.mod_eq_of_lt hlt,
+    Nat.add_mul_div_left _ _ (Nat.two_pow_pos _), Nat.div_eq_of_lt hlt, Nat.zero_add]
+  congr 2
+  rw [pow_split W (n % W) (Nat.le_of_lt hs), Nat.mul_assoc, Nat.add_mul_mod_self_left]
+
+theorem clearHighBitsLarge_spec (W : Nat) (hW : 1 ≤ W) (ws : List Nat) (n : Nat) (hw : IsWords W ws) :
+    (clearHighBitsLarge W ws n).value W = val W ws % 2 ^ n ∧ (clearHighBitsLarge W ws n).Canon W := by
+  have hs : n % W < W := Nat.mod_lt _ (by omega)
+  have hl := val_lt W ws hw
+  unfold clearHighBitsLarge ceilDiv
+  by_cases hn0 : n = 0
+  · subst hn0
+    simp only [if_true, Nat.not_lt_zero, if_false, List.take_zero, Nat.zero_mod, ne_eq,
+      not_true_eq_false, Nat.pow_zero, Nat.mod_one]
+    exact ⟨by simp [fromBuffer_value], fromBuffer_canon W _ (IsWords.nil W)⟩
+  · simp only [hn0, if_false]
+    have hdm := Nat.div_add_mod n W
+    have hdm1 := Nat.div_add_mod (n - 1) W
+    split
+    · rename_i h
+      refine ⟨?_, fromBuffer_canon W _ hw⟩
+      have hge : W * ws.length ≤ n - 1 := by
+        calc W * ws.length ≤ W * ((n - 1) / W) := Nat.mul_le_mul_left _ (by omega)
+          _ ≤ n - 1 := Nat.mul_div_le _ _
+      have : 2 ^ (W * ws.length) ≤ 2 ^ n := Nat.pow_le_pow_right (by omega) (by omega)
+      rw [fromBuffer_value, Nat.mod_eq_of_lt (by omega)]
+    · rename_i h
+      split
+      · rename_i hr
+        -- n % W ≠ 0: ceil = n / W + 1
+        have hc : (n - 1) / W + 1 = n / W + 1 := by
+          congr 1
+          have : n - 1 = W * (n / W) + (n % W - 1) := by omega
+          rw [this, Nat.mul_add_div (by omega), Nat.div_eq_of_lt (by omega)]; simp
+        rw [hc] at h ⊢
+        have hk : n / W < ws.length := by omega
+        rw [take_succ_getD ws _ hk, List.dropLast_concat, List.getLastD_concat, onesN_and]
+        have hx : ws.getD (n / W) 0 % 2 ^ (n % W) < 2 ^ W :=
+          Nat.lt_of_le_of_lt (Nat.mod_le _ _) (hw.getD _)
+        refine ⟨?_, fromBuffer_canon W _ (IsWords.append (hw.take _) (isWords_singleton W _ hx))⟩
+        rw [fromBuffer_value, val_append, val_mod_two_pow W hW ws n hw hk]
+        simp [List.length_take, Nat.min_eq_left (Nat.le_of_lt hk)]
+      · rename_i hr
+        have h0 : n % W = 0 := by omega
+        have hc : (n - 1) / W + 1 = n / W := by
+          have hq : 1 ≤ n / W := by
+            rcases Nat.eq_zero_or_pos (n / W) with hz | hz
+            · rw [hz] at hdm; omega
+            · exact hz
+          have : n - 1 = W * (n / W - 1) + (W - 1) := by
+            have : W * (n / W) = W * (n / W - 1) + W := by
+              rw [← Nat.mul_succ]; congr 1; omega
+            omega
+          rw [this, Nat.mul_add_div (by omega), Nat.div_eq_of_lt (by omega)]; omega
+        rw [hc] at h ⊢
+        refine ⟨?_, fromBuffer_canon W _ (hw.take _)⟩
+        rw [fromBuffer_value]
+        have hsplit := val_take_add_drop W ws (n / W)
+        have hlen : (ws.take (n / W)).length = n / W := by
+          simp [List.length_take, Nat.min_eq_left (by omega : n / W ≤ ws.length)]
+        have hlt := val_lt W _ (hw.take (n / W))
+        rw [hlen] at hsplit hlt
+        have hn : n = W * (n / W) := by omega
+        conv => rhs; rw [hn, hsplit, Nat.add_mul_mod_self_left, Nat.mod_eq_of_lt hlt]
+
+theorem TRepr.clearHighBits_spec (W : Nat) (hW : 1 ≤ W) (m : TRepr) (n : Nat) (hm : m.Canon W) :
+    (m.clearHighBits W n).value W = m.value W % 2 ^ n ∧ (m.clearHighBits W n).Canon W := by
+  cases m with
+  | small d =>
+    have hd : d < 2 ^ (2 * W) := hm
+    simp only [TRepr.clearHighBits]
+    split
+    · exact ⟨onesN_and d n, by rw [onesN_and]; exact Nat.lt_of_le_of_lt (Nat.mod_le _ _) hd⟩
+    · rename_i h
+      have : 2 ^ (2 * W) ≤ 2 ^ n := Nat.pow_le_pow_right (by omega) (by omega)
+      exact ⟨(Nat.mod_eq_of_lt (by omega)).symm, hd⟩
+  | large ws => exact clearHighBitsLarge_spec W hW ws n hm.large_words
+
+/-- `split_bits(n)` = (`x mod 2^n`, `x div 2^n`), both canonical -/
+theorem TRepr.splitBits_spec (W : Nat) (hW : 1 ≤ W) (m : TRepr) (n : Nat) (hm : m.Canon W) :
+    ((m.splitBits W n).1.value W = m.value W % 2 ^ n ∧ (m.splitBits W n).1.Canon W) ∧
+    ((m.splitBits W n).2.value W = m.value W / 2 ^ n ∧ (m.splitBits W n).2.Canon W) := by
+  cases m with
+  | small d =>
+    have hd : d < 2 ^ (2 * W) := hm
+    simp only [TRepr.splitBits]
+    split
+    · exact ⟨⟨onesN_and d n, by rw [onesN_and]; exact Nat.lt_of_le_of_lt (Nat.mod_le _ _) hd⟩,
+        rfl, Nat.lt_of_le_of_lt (Nat.div_le_self _ _) hd⟩
+    · rename_i h
+      have : 2 ^ (2 * W) ≤ 2 ^ n := Nat.pow_le_pow_right (by omega) (by omega)
+      exact ⟨⟨(Nat.mod_eq_of_lt (by omega)).symm, hd⟩,
+        (Nat.div_eq_of_lt (by omega)).symm, Nat.two_pow_pos _⟩
+  | large ws =>
+    simp only [TRepr.splitBits]
+    split
+    · rename_i h; subst h
+      exact ⟨⟨by simp [Nat.mod_one], Nat.two_pow_pos _⟩,
+        by simp [fromBuffer_value], fromBuffer_canon W _ hm.large_words⟩
+    · exact ⟨clearHighBitsLarge_spec W hW ws n hm.large_words,
+        shrLargeRef_spec W hW ws n hm.large_words⟩
+
+-- ================================================================== bit_len
+
+theorem bitLenNat_eq {v k : Nat} (h1 : 2 ^ k ≤ v) (h2 : v < 2 ^ (k + 1)) : bitLenNat v = k + 1 := by
+  have hv : v ≠ 0 := by have := Nat.two_pow_pos k; omega
+  simp only [bitLenNat, hv, if_false]
+  rw [(Nat.log2_eq_iff hv).mpr ⟨h1, h2⟩]
+
+theorem val_dropLast_getLast (W : Nat) (ws : List Nat) (hne : ws ≠ []) :
+    val W ws = val W ws.dropLast + 2 ^ (W * (ws.length - 1)) * ws.getLastD 0 := by
+  have h := List.dropLast_append_getLast? (l := ws)
+  obtain ⟨x, hx⟩ : ∃ x, ws.getLast? = some x := by
+    rw [List.getLast?_eq_some_getLast hne]; exact ⟨_, rfl⟩
+  have hcat : ws = ws.dropLast ++ [x] := by
+    have := List.dropLast_append_getLast hne
+    rw [List.getLast?_eq_some_getLast hne] at hx
+    cases hx; exact this.symm
+  have hlast : ws.getLastD 0 = x := by rw [List.getLastD_eq_getLast?, hx]; rfl
+  rw [hlast]
+  conv => lhs; rw [hcat]
+  rw [val_append]; simp [List.length_dropLast]
+
+/-- `bit_len` = position of the top set bit + 1 (0 for 0) -/
+theorem TRepr.bitLen_spec (W : Nat) (m : TRepr) (hm : m.Canon W) :
+    m.bitLen W = bitLenNat (m.value W) := by
+  cases m with
+  | small d => rfl
+  | large ws =>
+    obtain ⟨h3, hw, hlast⟩ := hm
+    have hne : ws ≠ [] := by intro e; subst e; simp at h3
+    have hsplit := val_dropLast_getLast W ws hne
+    have hlow : val W ws.dropLast < 2 ^ (W * (ws.length - 1)) := by
+      have := val_lt W _ (show IsWords W ws.dropLast from fun x hx => hw x (List.mem_of_mem_dropLast hx))
+      simpa [List.length_dropLast] using this
+    have htop : ws.getLastD 0 ≠ 0 := by
+      rw [List.getLastD_eq_getLast?]
+      rw [List.getLast?_eq_some_getLast hne] at hlast ⊢
+      simpa using hlast
+    have htopw : ws.getLastD 0 < 2 ^ W := by
+      rw [List.getLastD_eq_getLast?, List.getLast?_eq_some_getLast hne]
+      exact hw _ (List.getLast_mem hne)
+    simp only [TRepr.bitLen, TRepr.value_large]
+    generalize ws.getLastD 0 = t at *
+    have ⟨hb1, hb2⟩ := bitLenNat_spec t
+    have hb2 := hb2 htop
+    have hbl : 1 ≤ bitLenNat t := by
+      unfold bitLenNat; simp [htop]
+    have hblW : bitLenNat t ≤ W := bitLenNat_le t W htopw
+    -- bounds of the whole value
+    have hp := Nat.two_pow_pos (W * (ws.length - 1))
+    have hlo : 2 ^ (W * (ws.length - 1) + (bitLenNat t - 1)) ≤ val W ws := by
+      rw [hsplit, Nat.pow_add]
+      calc 2 ^ (W * (ws.length - 1)) * 2 ^ (bitLenNat t - 1)
+          ≤ 2 ^ (W * (ws.length - 1)) * t := Nat.mul_le_mul_left _ hb2
+        _ ≤ _ := Nat.le_add_left _ _
+    have hhi : val W ws < 2 ^ (W * (ws.length - 1) + (bitLenNat t - 1) + 1) := by
+      rw [hsplit, show W * (ws.length - 1) + (bitLenNat t - 1) + 1
+        = W * (ws.length - 1) + bitLenNat t by omega, Nat.pow_add]
+      have : t + 1 ≤ 2 ^ bitLenNat t := hb1
+      calc val W ws.dropLast + 2 ^ (W * (ws.length - 1)) * t
+          < 2 ^ (W * (ws.length - 1)) + 2 ^ (W * (ws.length - 1)) * t := by omega
+        _ = 2 ^ (W * (ws.length - 1)) * (t + 1) := by ring
+        _ ≤ _ := Nat.mul_le_mul_left _ this
+    rw [bitLenNat_eq hlo hhi]
+    have : ws.length * W = W * (ws.length - 1) + W := by
+      rw [Nat.mul_comm, ← Nat.mul_succ]; congr 1; omega
+    omega
 
 end Dashu.Model
